@@ -762,8 +762,14 @@ def run_hist(ctx: Ctx, case: dict, want_info: bool = False):
             rec = {"seen": [], "returned": []}
             cfg = dict(st["exp"])
             args = st.get("args")
-            tomo = StateTomography(n, base, make_experiment(cfg, rec, n, cache),
-                                   None if args is None else [list(args)])
+            try:
+                tomo = StateTomography(n, base, make_experiment(cfg, rec, n, cache),
+                                       None if args is None else [list(args)])
+            except Exception as e:  # noqa: BLE001
+                # every callback form generated here (function, lambda, bound method) is a valid experiment
+                probs.append(f"oracle: hist: step #{i} constructing StateTomography with a {cfg.get('kind') or 'function'} "
+                             f"callback raised {exc_class(e)}")
+                break
             objs[st["obj"]] = {"tomo": tomo, "rec": rec, "cfg": cfg, "args": args, "last": None, "calls": 0,
                                "pending": set()}
             continue
